@@ -92,15 +92,19 @@ CHECKS = {
             'Rocq/Coq invariant + convergence proof over the worker turn + re-entrant differential harness',
             "DESIGN.md section 6 C13"),
     "C14": (True,
-            "PARTIAL proof. Coq proofs about the DirTourist stack-machine model (any file system, listing order, watch list): every returned file is an "
-            "explicit / origin-level file or the non-empty regular .ignore/.gitignore/.hgignore of a visited directory, tagged with that directory "
-            "and project type, from a directory related to the explicit watches; pruning is permanent: once a directory has been skipped nothing from it or from "
-            "anywhere below it is returned afterwards, from every state the walk reaches (file systems with absolute paths). Not yet proved: completeness "
-            "(every non-pruned directory is visited) and listing-order independence; these are checked on every run by evaluating the model under "
-            "two listing orders against ignore_files::from_origin on generated trees (prefix-related siblings, negations, empty files, nested VCS dirs). "
-            "One genuine defect (nested VCS metadata directories entered) found and repaired.",
+            "Coq proofs about the DirTourist stack-machine model (any file system listing with absolute, distinct paths; any listing order, watch list, "
+            "ignore-file contents): every returned file is an explicit / origin-level file or the non-empty regular .ignore/.gitignore/.hgignore of a "
+            "visited directory, tagged with that directory and project type, from a directory related to the explicit watches; pruning is permanent "
+            "(nothing is returned from a skipped directory or below it, from every reachable state); VCS metadata directories are never entered; "
+            "COMPLETENESS: every directory reachable from the origin through directories is visited (all its ignore files returned) or lies in / below "
+            "a pruned directory, and a directory is pruned only as a VCS metadata directory, as unrelated to the watches, or because the filter of a walk "
+            "state in which every directory above it had been visited ignores it (never the origin itself); the walk's filter is the initial filter plus "
+            "the discovered files in order; TERMINATION: the stack runs empty within the fuel from_origin provides. PARTIAL: listing-order independence is "
+            "checked (model under two listing orders against ignore_files::from_origin on generated trees), not proved. A closure check evaluated in Coq on "
+            "the implementation's own result names missing / extra files. Four genuine defects found and repaired (nested VCS directories entered; negated "
+            "pattern on a parent re-including a VCS directory; child checked before its parent's own ignore files were loaded; origin pruned by a lone *).",
             "Trusted: Coq kernel, harness; tokio fs calls, gix_config (core.excludesFile is a model input), the IgnoreFilter model of C03. No axioms.",
-            "Rocq/Coq invariant proof over the stack machine (partial) + differential correspondence under two listing orders",
+            "Rocq/Coq invariant, completeness and termination proofs over the stack machine + differential correspondence under two listing orders + closure check",
             "DESIGN.md section 6 C14"),
     "C16": (True,
             "Coq proofs: Debug-name table round trip over the source-translated fs-kind family (all 41 kinds), Tag->SerdeTag->Tag identity "
